@@ -54,8 +54,9 @@ func (m *Mutex) Unlock() {
 	if !m.locked {
 		panic("sync: unlock of unlocked mutex")
 	}
-	m.locked = false
+	// no scheduling point after the release: the thread's next visible operation has one in front of it
 	g.Yield("Mutex.Unlock", nil)
+	m.locked = false
 }
 
 type RWMutex struct {
@@ -83,8 +84,8 @@ func (m *RWMutex) Unlock() {
 	if !m.writer {
 		panic("sync: Unlock of unlocked RWMutex")
 	}
-	m.writer = false
 	g.Yield("RWMutex.Unlock", nil)
+	m.writer = false
 }
 
 func (m *RWMutex) RLock() {
@@ -105,8 +106,8 @@ func (m *RWMutex) RUnlock() {
 	if m.readers <= 0 {
 		panic("sync: RUnlock of unlocked RWMutex")
 	}
-	m.readers--
 	g.Yield("RWMutex.RUnlock", nil)
+	m.readers--
 }
 
 // WaitGroup / Once (small, for completeness)
@@ -368,8 +369,11 @@ func Close[T any](ch chan T) {
 	if st.closed {
 		panic("close of closed channel")
 	}
-	st.closed = true
 	g.Yield("close "+st.name, nil)
+	if st.closed {
+		panic("close of closed channel")
+	}
+	st.closed = true
 }
 
 // Len replaces len(ch) for channels.
@@ -492,7 +496,7 @@ func (sl *Sel) Wait(hasDefault bool) int {
 	}
 	k := 0
 	if len(r) > 1 {
-		k = chooseFree(len(r)) // which ready case fires is the environment's coin
+		k = sched.Choose(len(r)) // which ready case fires is the runtime's coin: a costed deviation from "first ready in source order"
 	}
 	i := r[k]
 	unpark()
